@@ -1,5 +1,5 @@
 /- C13 driver:
-   `C13 run [chunk,maxBuf] [op,…]`   → as `C11 run` (the same machine)
+   `C13 run [chunk,maxBuf] [op,…]`   → as `C11 run` (the same machine), ops = the C11 ops + `[arrive,x<bytes>]` (Model.XOp)
    `C13 expect req x<buffer>`         → ok outcome | ok ~     (Spec.expected with the concrete regexes)
    `C13 later [req,…] x<buffer>`      → ok [outcome | ~,…]     (Spec.laterReads: reads after the close, served from the buffer)
 -/
@@ -19,9 +19,26 @@ def decReq (v : V) : Option Req := do
   | [.atom "ruc"] => pure .untilClose
   | _ => none
 
+def decXOp (v : V) : Option XOp :=
+  match v.list? with
+  | some [.atom "arrive", b] => b.byteNats?.map .arrive
+  | _ => (C11.Drv.decOp v).map .op
+
+def runVX (R : Nat → Bytes → Option Nat) (s : St) : List XOp → List V
+  | [] => []
+  | op :: ops =>
+    let (s1, o) := stepX R s op
+    .list [C11.Drv.encRet o.ret, .list (C11.Drv.settles o.evs), .int (C11.Drv.cbs o.evs), C11.Drv.view s1] :: runVX R s1 ops
+
 def handle (toks : List String) : String :=
   match toks with
-  | "run" :: _ => C11.Drv.handle toks
+  | ["run", cfg, ops] =>
+    match V.parse cfg >>= V.list?, V.parse ops >>= V.list? >>= (·.mapM decXOp) with
+    | some [c, m], some ops =>
+      match c.nat?, m.nat? with
+      | some c, some m => ok [.list (runVX stdR { chunk := c, maxBuf := m } ops)]
+      | _, _ => err "bad-cfg"
+    | _, _ => err "bad-arg"
   | ["expect", q, b] =>
     match V.parse q >>= decReq, V.parse b >>= V.byteNats? with
     | some q, some b => ok [V.ofOpt C11.Drv.encOutcome (Spec.expected stdR q b)]
